@@ -234,6 +234,18 @@ const dagmergeCase = `{"kind": "dagmerge", "g": {"bs": 16, "org": [0, 0, 0], "di
          {"k": "dagmerge", "v": 2, "labels": [1], "child": 3}, {"k": "observe", "v": 3}],
  "pts": [[1, 1, 1], [3, 3, 3]]}`
 
+// labels 30 and 7 stored (maximum 30): split 30 with remain=31 (the server draws the split label:
+// it must not be 31), split the remainder 31 with split=40 alone (the server draws the remain
+// label), then split 7 with split=remain=50: refused, nothing changes.
+const splitLabelsCase = `{"kind": "splitlabels", "g": {"bs": 16, "org": [0, 0, 0], "dim": [2, 1, 1]},
+ "layout": [{"p": [0, 0, 0], "d": [20, 8, 8], "l": 30}, {"p": [2, 2, 2], "d": [3, 3, 3], "l": 7}],
+ "ops": [{"k": "ingest", "v": 0, "via": "blocks", "blocks": [[0, 0, 0], [1, 0, 0]]},
+         {"k": "splitsv", "v": 0, "target": 30, "runs": [{"p": [0, 0, 0], "n": 5}], "remain": 31},
+         {"k": "splitsv", "v": 0, "target": 31, "runs": [{"p": [5, 0, 0], "n": 4}, {"p": [14, 1, 0], "n": 4}], "split": 40},
+         {"k": "splitsv", "v": 0, "target": 7, "runs": [{"p": [2, 2, 2], "n": 3}], "split": 50, "remain": 50, "bad": "split-same-labels"},
+         {"k": "observe", "v": 0}],
+ "pts": [[1, 1, 1], [3, 3, 3], [15, 1, 0]], "extra": [31, 32, 40, 41, 50]}`
+
 const header = `From DV Require Import Base.Prelude Model.LabelMapRun.
 Local Open Scope N_scope.
 Local Notation H := Build_history.
@@ -320,6 +332,22 @@ func emitRun(o lib.Opts) {
 		e.run()
 		addHistory(&h, e)
 	}
+	// fixed corpus: labels of split-supervoxel chosen by the client (defect C08-11): remain = the
+	// next free label with the split label drawn by the server, split alone, and split == remain
+	{
+		var h History
+		if err := json.Unmarshal([]byte(splitLabelsCase), &h); err != nil {
+			fmt.Fprintln(os.Stderr, "corpus:", err)
+			os.Exit(2)
+		}
+		e, err := newExec(&h)
+		if err != nil {
+			fmt.Fprintln(os.Stderr, "setup:", err)
+			os.Exit(2)
+		}
+		e.run()
+		addHistory(&h, e)
+	}
 	// dense chains of mapping operations on a child server process that is restarted
 	nc := 5
 	if o.Thorough() {
@@ -355,7 +383,7 @@ func emitRun(o lib.Opts) {
 		addHistory(h, e)
 	}
 	run.Finish("history",
-		"one fixed history of kind dagmerge (conflict-free repo merge whose non-first parent merged a body, read at the merge child: finding C08-dagmerge, class 12); histories of kind chain on a child server process (one block, 24-32 merge / cleave / renumber / split-supervoxel operations piled on the same few bodies, biased towards body ids that are also live supervoxel ids of another body, over 2-4 versions, the server process restarted twice and every version read again leaves first); random proofreading histories on 16^3-block labelmap instances (2-8 blocks; background, multi-block and sub-block supervoxels, labels up to 2^63): ingest by POST blocks / POST raw / ingest-supervoxels+indices+mappings, then about ten of merge, cleave, split-supervoxel, renumber, mutating raw write (boxes, wipe-outs, count-preserving rotations of a box across a block face), body split, a few requests violating a contract on purpose, interleaved with commit / newversion / branch; every read endpoint of the property observed after each request at the touched version and one more; a history is distinct by its operation multiset, geometry and content hash",
+		"one fixed history of kind splitlabels (split-supervoxel with remain = next free label and no split, with split alone, with split == remain: defect C08-11); one fixed history of kind dagmerge (conflict-free repo merge whose non-first parent merged a body, read at the merge child: finding C08-dagmerge, class 12); histories of kind chain on a child server process (one block, 24-32 merge / cleave / renumber / split-supervoxel operations piled on the same few bodies, biased towards body ids that are also live supervoxel ids of another body, over 2-4 versions, the server process restarted twice and every version read again leaves first); random proofreading histories on 16^3-block labelmap instances (2-8 blocks; background, multi-block and sub-block supervoxels, labels up to 2^63): ingest by POST blocks / POST raw / ingest-supervoxels+indices+mappings, then about ten of merge, cleave, split-supervoxel, renumber, mutating raw write (boxes, wipe-outs, count-preserving rotations of a box across a block face), body split, a few requests violating a contract on purpose, interleaved with commit / newversion / branch; every read endpoint of the property observed after each request at the touched version and one more; a history is distinct by its operation multiset, geometry and content hash",
 		tail)
 }
 
